@@ -340,6 +340,41 @@ def run(ctx):
         r3.check("PyXFormError" in r.mro and "cities" in str(r.exc_args[0]), "_generate_instances[two files with one stem]", "cities.csv and cities.xml would share the id `cities`: rejected with PyXFormError naming it", gi.loc())
     out = run_gi({}, None, from_file={"q2": info("cities", "jr://file-csv/cities.csv"), "q3": info("cities", "jr://file-csv/cities.csv")})
     r3.check([n.attrs.get("id") for n in out] == ["cities"], "_generate_instances[two selects, one file]", "the shared file is declared once", gi.loc(), why_fail=repr([n.attrs for n in out]))
+    # a list shown in-line by a search() select has no instance: a plain select on the same list is refused - whichever of
+    # the two comes first on the sheet (evaluated: the registrar over both orders, and with another select between them)
+    from .. import trees as _trees9
+    st_ = scls.methods["_setup_translations"]
+    opt_cls = repo.cls("pyxform.question:Option")
+
+    def _sel9(nm_, search_):
+        return _trees9.mk(ctx, mq, nm_, type="select one", label=nm_.upper(), bind={"type": "string"}, control=({"appearance": "search('x')"} if search_ else {}), itemset="l", list_name="l",
+                          choice_filter=None, parameters=None)
+    for desc_, order_ in (("search() select first", [("s1", True), ("p1", False)]), ("plain select first", [("p1", False), ("s1", True)]),
+                          ("plain select first, another list's select between", [("p1", False), ("o1", None), ("s1", True)]), ("two search() selects only", [("s1", True), ("s2", True)]),
+                          ("two plain selects only", [("p1", False), ("p2", False)])):
+        iset_ = Obj(icls, {"name": "l", "options": (_trees9.mk(ctx, opt_cls, "a", label="A", media=None),), "requires_itext": False, "used_by_search": False}, name="itemset:l")
+        iset_o = Obj(icls, {"name": "m", "options": (), "requires_itext": False, "used_by_search": False}, name="itemset:m")
+        kids_ = []
+        for nm_, search_ in order_:
+            if search_ is None:
+                e_ = _trees9.mk(ctx, mq, nm_, type="select one", label="O", bind={"type": "string"}, control={}, itemset="m", list_name="m", choices=iset_o, choice_filter=None, parameters=None)
+            else:
+                e_ = _sel9(nm_, search_)
+                e_.attrs["choices"] = iset_
+            kids_.append(e_)
+        itr_ = ctx.interp("C09.R3")
+        itr_.reset([])
+        rd_ = itr_.call(itr_.module_global(repo.module("pyxform.survey"), "recursive_dict"), [], {}, None)
+        sv_ = _trees9.mk(ctx, scls, "data", type="survey", children=kids_, choices={"l": iset_, "m": iset_o}, default_language="default", _translations=rd_)
+        for e_ in kids_:
+            e_.attrs["parent"] = sv_
+        try:
+            itr_.call_function(st_, [sv_], {}, None, st_.node)
+            got_ = "accepted"
+        except Raised as e:
+            got_ = "refused" if "PyXFormError" in e.mro else f"raises {e.exc_name}{e.exc_args}"
+        mixed_ = {x_[1] for x_ in order_ if x_[1] is not None} == {True, False}
+        r3.check(got_ == ("refused" if mixed_ else "accepted"), f"search() and plain select on one list[{desc_}]", "refused with PyXFormError" if mixed_ else "accepted", st_.loc(), why_fail=got_[:200])
     ve = scls.methods["_validate_external_instances"]
     it = ctx.interp("C09.R3")
     import itertools as _itv
